@@ -16,7 +16,7 @@ import (
 
 func init() {
 	register(&Prop{ID: "C02", Run: runC02, MinNontrivial: 500,
-		Rule:        "cases = (kind: signed SSO Response, signed assertion under an unsigned Response, bad Response signature over well-signed assertions, LogoutRequest, LogoutResponse) x (signer: store member i of n, untrusted key, trusted certificate with foreign key, same key under another certificate, KeyInfo absent) x (store: 0-3 certificates, RSA/ECDSA, signer's certificate present or not) x (SP clock at NotBefore-1s, NotBefore+1s, middle, NotAfter-1s, NotAfter+1s of the signing certificate) x (tamper: none, signed text altered, signed attribute altered); oracle: signature honoured iff certificate in store and key matches and window contains the injected now and untampered and (KeyInfo present or store size 1); a present but bad signature is an error, never 'accepted unflagged'; evidence counts clock reads whose stack contains verifyCertificate; non-trivial = reached signature processing; distinct by parameter tuple; also stores holding a renewed certificate over the same key, and a store-rollover class (outgoing + incoming certificate in a stock memory store, one SP, clock moving across the hand-over; the store must stay as configured); tamper sig-nested (own signature moved into an Extensions child); same-subject roll-over stores; store members with odd key-usage profiles; KeyInfo-less messages and doubled entries in the store-rollover class; tamper sigmethod-swapped (registered and unknown SignatureMethod / DigestMethod identifiers); stores listing Ed25519 certificates beside the one usable member; KeyInfo that names the signer's certificate (SKI, issuer and serial, subject name, key name) without carrying it; tamper repeated-id (a second ID attribute in front of the signed element's own)",
+		Rule:        "cases = (kind: signed SSO Response, signed assertion under an unsigned Response, bad Response signature over well-signed assertions, LogoutRequest, LogoutResponse) x (signer: store member i of n, untrusted key, trusted certificate with foreign key, same key under another certificate, KeyInfo absent) x (store: 0-3 certificates, RSA/ECDSA, signer's certificate present or not) x (SP clock at NotBefore-1s, NotBefore+1s, middle, NotAfter-1s, NotAfter+1s of the signing certificate) x (tamper: none, signed text altered, signed attribute altered); oracle: signature honoured iff certificate in store and key matches and window contains the injected now and untampered and (KeyInfo present or store size 1); a present but bad signature is an error, never 'accepted unflagged'; evidence counts clock reads whose stack contains verifyCertificate; non-trivial = reached signature processing; distinct by parameter tuple; also stores holding a renewed certificate over the same key, and a store-rollover class (outgoing + incoming certificate in a stock memory store, one SP, clock moving across the hand-over; the store must stay as configured); tamper sig-nested (own signature moved into an Extensions child); same-subject roll-over stores; store members with odd key-usage profiles; KeyInfo-less messages and doubled entries in the store-rollover class; tamper sigmethod-swapped (registered and unknown SignatureMethod / DigestMethod identifiers); stores listing Ed25519 certificates beside the one usable member; KeyInfo that names the signer's certificate (SKI, issuer and serial, subject name, key name) without carrying it; a store that fails after it was rotated; certificates issued by a CA that is a store member; tamper repeated-id (a second ID attribute in front of the signed element's own)",
 		Assumptions: []string{"exact NotBefore/NotAfter instants are not probed (X.509 validity is inclusive; the property says inside)", "wall time is decades away from every certificate window"}})
 }
 
@@ -26,7 +26,7 @@ func runC02(c *mon.Ctx) {
 	nb, na := base, base.Add(2*time.Hour)
 	certFor := func(name string, serial int64) *sim.Cert { return sim.Mint(sim.K(name), nb, na, serial) }
 	kinds := []string{"sso-resp", "sso-assert", "sso-bad-resp-over-good-assertions", "logout-req", "logout-resp"}
-	signers := []string{"member", "member", "member", "untrusted", "foreign-key", "same-key-other-cert", "no-keyinfo", "no-keyinfo", "twin-member", "mixed-validity-store", "renewed-same-key", "beside-unusable-member"}
+	signers := []string{"member", "member", "member", "untrusted", "foreign-key", "same-key-other-cert", "no-keyinfo", "no-keyinfo", "twin-member", "mixed-validity-store", "renewed-same-key", "beside-unusable-member", "issued-by-store-ca"}
 	clocks := []struct {
 		name   string
 		t      time.Time
@@ -96,6 +96,18 @@ func runC02(c *mon.Ctx) {
 			storeSize = len(store)
 			signCert, signKey, inStore = cur, cur.Key, true
 			mixedNoKI = r.IntN(2) == 0
+		case "issued-by-store-ca":
+			// the store holds a CA certificate (perhaps next to the IdP's own): trust is by identity with a store member,
+			// so a certificate that this CA issued to somebody else (a print server, another department's IdP) vouches for
+			// nothing, valid chain or not
+			ca := sim.MintUsage(sim.K(keyNames[perm[0]]), "verif-issuing-ca", nb.AddDate(-5, 0, 0), na.AddDate(5, 0, 0), 91, 3)
+			store = []*sim.Cert{ca}
+			if r.IntN(2) == 0 {
+				store = append(store, certFor(keyNames[perm[1]], 10))
+			}
+			storeSize = len(store)
+			leaf := sim.MintIssuedBy(pick(r, []*sim.Key{sim.K("atk1"), sim.K("atk2")}), pick(r, []string{"print-server.example.test", "verif-idp-signing", "verif-issuing-ca"}), ca, nb, na, 92)
+			signCert, signKey, inStore = leaf, leaf.Key, false
 		case "beside-unusable-member":
 			// the store lists, next to one RSA / ECDSA certificate, certificates whose keys no XML-DSig method uses
 			// (Ed25519): they are members all the same, so a message without a certificate cannot be attributed
@@ -511,9 +523,20 @@ func runStoreRotation(c *mon.Ctx, nr int, nb, na time.Time, kinds []string) {
 			how = "store-reassigned"
 			sp.IDPCertificateStore = &dsig.MemoryX509CertificateStore{Roots: []*x509.Certificate{newC.X509}}
 		}
+		// in a third of the rounds the rotated store then fails for a while: nothing can be verified meanwhile, least
+		// of all with what an earlier read returned
+		failedOld, failedNew := false, false
+		if how == "roots-replaced-in-place" && r.IntN(3) != 0 {
+			st.Fail.Store(true)
+			failedOld, failedNew = accept(sp, mk(oldC)), accept(sp, mk(newC))
+			st.Fail.Store(false)
+		}
 		oldAfter := accept(sp, mk(oldC))
 		newAfter := accept(sp, mk(newC))
 		switch {
+		case failedOld || failedNew:
+			cs.Outcome("accepted-while-the-store-fails")
+			cs.Violation("accepted-while-store-fails:"+kind, "while the certificate store returns an error, a message signed with the %s certificate was accepted", map[bool]string{true: "retired", false: "current"}[failedOld])
 		case !first:
 			cs.Violation("trusted-signature-not-honoured:"+kind, "message signed by the sole store member rejected before any rotation")
 		case oldAfter:
